@@ -11,7 +11,7 @@ ID = 'C20'
 LEVEL = 'exploration'
 BUDGET = {'quick': 240, 'thorough': 3000}
 CHUNK = 1
-RULE = ('(a) Simulated read pairs (genome 3..8 kb, coverage 10..80, error rate 0..3%, N, both orientations, all odd k, both '
+RULE = ('(a) Simulated read pairs (genome 3..8 kb, coverage 10..80, error rate 0..3%, N, both orientations, 30% with a high-copy homopolymer/tandem element whose k-mers are seen > 1000 times, all odd k, both '
         'strand modes) through `ska cov` and through the hooked library: every table row against the exact number of distinct '
         'canonical split k-mers seen that many times (set-based model), table length = last multiplicity shared by >= 50 '
         'k-mers, rows numbered 1.., cutoff = smallest i>=1 with w0*Pois(i;1) < (1-w0)*Pois(i;c) at the fitted (w0,c) read '
@@ -19,13 +19,14 @@ RULE = ('(a) Simulated read pairs (genome 3..8 kb, coverage 10..80, error rate 0
         'mixture density column = w0*Pois(i;1)+(1-w0)*Pois(i;c) (independent Python implementation with lgamma).  '
         '(b) Likelihood/gradient identity through the hooked functions: grad_ll against central differences of the hooked '
         'log_likelihood and log_likelihood against the Python mixture, on grid and random points 0<w0<1, 1<=c<=200 with real '
-        'and synthetic histograms (including the test suite\'s).  (c) find_cutoff against the definition on random parameters.  (d) Given histograms (through the hook constructor and the real fit_histogram) whose last bin with >= 50 k-mers holds exactly 50 / 49 / 51, with interior bins below 50: truncation rule, cutoff and labels.  '
+        'and synthetic histograms (including the test suite\'s), three histograms of different lengths per process (short, long, in between).  (c) find_cutoff against the definition on random parameters.  (d) Given histograms (through the hook constructor and the real fit_histogram) whose last bin with >= 50 k-mers holds exactly 50 / 49 / 51, with interior bins below 50: truncation rule, cutoff and labels.  '
         'Non-trivial (a): the fit converged and the table has both labels; (b): a parameter point; distinct = distinct inputs.')
 ASSUMPTIONS = ['when the optimiser does not converge (possible at 0% error) counting is still judged through the accessor and the '
                'cutoff clauses are not judged for that case',
                'numerical gradient: central differences, relative tolerance 1e-4; decisive comparisons closer than 1e-9 are skipped']
 REQUIRED = {t: ['readsets_counting_judged', 'readsets_cutoff_judged', 'rows_compared', 'labels_checked', 'gradient_points',
-                'likelihood_points', 'cutoff_points', 'cli_runs', 'truncation_cases', 'truncation_exactly_50'] for t in ('quick', 'thorough')}
+                'likelihood_points', 'cutoff_points', 'cli_runs', 'truncation_cases', 'truncation_exactly_50',
+                'readsets_with_kmers_seen_over_1000_times', 'likelihood_points_on_later_histograms_of_a_process'] for t in ('quick', 'thorough')}
 
 SUITE_COUNTS = [44633459, 950672, 104410, 44137, 24170, 21232, 21699, 24145, 30696, 39210, 49878, 63683, 77690, 95147,
                 112416, 130307, 146531, 160932, 175130, 185113, 193149, 197468, 199189, 198235, 192150, 185565, 176362,
@@ -143,7 +144,19 @@ def sim_reads(rng):
         if rng.random() < 0.5:
             s = M.rc_n(s)
         reads[r % 2].append(s)
-    return reads, {'genome_length': glen, 'coverage': cov, 'error_rate': err, 'read_length': RL}
+    hi = None
+    if rng.random() < 0.3:
+        # a high-copy element: reads made of a homopolymer or a short tandem repeat, enough of them for split k-mers seen
+        # more than 1000 times (the table leaves those out, every other row must stay exact)
+        unit = rng.choice(['A', 'T', 'C', 'AC', 'AG', 'ACT', 'AAC'])
+        nhi = rng.randint(30, 90)
+        for r in range(nhi):
+            s = (unit * RL)[:RL]
+            if rng.random() < 0.5:
+                s = M.rc_n(s)
+            reads[r % 2].insert(rng.randrange(len(reads[r % 2]) + 1), s)
+        hi = '%s x %d reads' % (unit, nhi)
+    return reads, {'genome_length': glen, 'coverage': cov, 'error_rate': err, 'read_length': RL, 'high_copy': hi}
 
 
 def parse_harness_cov(out):
@@ -227,6 +240,8 @@ def run_reads(desc, ctx, res):
                     % (what, len(hc['counts'] or []), len(exp_counts)), detail)
         return
     res.count('readsets_counting_judged')
+    if any(m > 1000 for m in hist):
+        res.count('readsets_with_kmers_seen_over_1000_times')
     w0, c, cutoff, fitted = hc['state']
     converged = hc['fit'][0] == 'ok' and fitted
     if converged:
@@ -282,71 +297,78 @@ def covfn(ctx, lines):
     return [l.split('\t') for l in p.stdout.split('\n') if l]
 
 
+def grad_hist(rng, n):
+    style = rng.randrange(3)
+    if style == 0:
+        # mixture-shaped synthetic histogram
+        w, cc, tot = rng.uniform(0.05, 0.95), rng.uniform(2, 80), rng.choice([1e3, 1e5, 1e7])
+        return [int(tot * math.exp(lse(comp_a(w, i + 1.0), comp_b(w, cc, i + 1.0)))) for i in range(n)]
+    if style == 1:
+        return [rng.randint(0, 10 ** rng.randint(1, 6)) for _ in range(n)]
+    counts = [0] * n
+    for _ in range(rng.randint(1, 5)):
+        counts[rng.randrange(n)] = rng.randint(1, 10 ** 6)
+    return counts
+
+
 def run_grad(desc, ctx, res):
     rng = random.Random(desc['seed'])
+    # several histograms of different lengths are evaluated by ONE process, a short one first, then a longer one, then one
+    # in between: whatever the functions keep between calls must not depend on the histogram seen before
+    lens = sorted(rng.sample(range(2, 121), 3))
+    hists = [grad_hist(rng, lens[0]), grad_hist(rng, lens[2]), grad_hist(rng, lens[1])]
     if desc.get('suite'):
-        counts = SUITE_COUNTS
-    else:
-        style = rng.randrange(3)
-        n = rng.randint(2, 120)
-        if style == 0:
-            # mixture-shaped synthetic histogram
-            w, cc, tot = rng.uniform(0.05, 0.95), rng.uniform(2, 80), rng.choice([1e3, 1e5, 1e7])
-            counts = [int(tot * math.exp(lse(comp_a(w, i + 1.0), comp_b(w, cc, i + 1.0)))) for i in range(n)]
-        elif style == 1:
-            counts = [rng.randint(0, 10 ** rng.randint(1, 6)) for _ in range(n)]
-        else:
-            counts = [0] * n
-            for _ in range(rng.randint(1, 5)):
-                counts[rng.randrange(n)] = rng.randint(1, 10 ** 6)
-    cs = ' '.join(str(x) for x in counts)
-    pts = [(w0, c) for w0 in (0.01, 0.2, 0.5, 0.8, 0.99) for c in (1.0, 1.5, 5.0, 20.0, 75.0, 200.0)]
-    pts += [(rng.uniform(0.001, 0.999), rng.uniform(1.0, 200.0)) for _ in range(70)]
+        hists[1] = SUITE_COUNTS
+    jobs = []
     lines = []
-    steps = []
-    for (w0, c) in pts:
-        hw = 1e-6 * min(w0, 1 - w0)
-        hc = 1e-6 * max(1.0, c)
-        if c - hc < 1.0:
-            hc = 0.0          # one-sided at the bound: skip the c component there
-        steps.append((hw, hc))
-        lines.append('LL %r %r %s' % (w0, c, cs))
-        lines.append('GRAD %r %r %s' % (w0, c, cs))
-        lines.append('LL %r %r %s' % (w0 + hw, c, cs))
-        lines.append('LL %r %r %s' % (w0 - hw, c, cs))
-        lines.append('LL %r %r %s' % (w0, c + hc, cs))
-        lines.append('LL %r %r %s' % (w0, c - hc, cs))
+    for hi, counts in enumerate(hists):
+        cs = ' '.join(str(x) for x in counts)
+        pts = [(w0, c) for w0 in (0.01, 0.2, 0.5, 0.8, 0.99) for c in (1.0, 1.5, 5.0, 20.0, 75.0, 200.0)]
+        pts += [(rng.uniform(0.001, 0.999), rng.uniform(1.0, 200.0)) for _ in range(30)]
+        for (w0, c) in pts:
+            hw = 1e-6 * min(w0, 1 - w0)
+            hc = 1e-6 * max(1.0, c)
+            if c - hc < 1.0:
+                hc = 0.0          # one-sided at the bound: skip the c component there
+            jobs.append((hi, w0, c, hw, hc))
+            lines.append('LL %r %r %s' % (w0, c, cs))
+            lines.append('GRAD %r %r %s' % (w0, c, cs))
+            lines.append('LL %r %r %s' % (w0 + hw, c, cs))
+            lines.append('LL %r %r %s' % (w0 - hw, c, cs))
+            lines.append('LL %r %r %s' % (w0, c + hc, cs))
+            lines.append('LL %r %r %s' % (w0, c - hc, cs))
     out = covfn(ctx, lines)
-    tot = float(sum(counts)) or 1.0
-    for i, (w0, c) in enumerate(pts):
+    for i, (hi, w0, c, hw, hc) in enumerate(jobs):
+        counts = hists[hi]
+        tot = float(sum(counts)) or 1.0
         o = out[6 * i:6 * i + 6]
         ll = float(o[0][1])
         g0, g1 = float(o[1][1]), float(o[1][2])
-        hw, hc = steps[i]
         res.evals += 1
+        detail = {'counts': counts, 'w0': w0, 'c': c, 'histogram_lengths_evaluated_before_in_this_process': [len(h) for h in hists[:hi]]}
         ref = py_ll(w0, c, counts)
         if abs(ll - ref) > 1e-9 * max(1.0, abs(ref)):
-            res.violate('C20:likelihood', 'log_likelihood(w0=%r, c=%r) = %r, the stated mixture gives %r' % (w0, c, ll, ref),
-                        {'counts': counts, 'w0': w0, 'c': c})
+            res.violate('C20:likelihood', 'log_likelihood(w0=%r, c=%r) on histogram %d of the process (%d bins; earlier ones %s) = %r, the stated mixture gives %r'
+                        % (w0, c, hi + 1, len(counts), [len(h) for h in hists[:hi]], ll, ref), detail)
             continue
         res.count('likelihood_points')
+        if hi > 0:
+            res.count('likelihood_points_on_later_histograms_of_a_process')
         n0 = (float(o[2][1]) - float(o[3][1])) / (2 * hw)
         scale0 = tot * (1.0 / w0 + 1.0 / (1.0 - w0)) * 1e-7 + 1e-16 * abs(ll) / hw
         if abs(n0 - g0) > 1e-4 * abs(n0) + 50 * scale0:
-            res.violate('C20:gradient:w0', 'd/dw0 at (w0=%r, c=%r): analytic %r, numerical %r' % (w0, c, g0, n0),
-                        {'counts': counts, 'w0': w0, 'c': c})
+            res.violate('C20:gradient:w0', 'd/dw0 at (w0=%r, c=%r): analytic %r, numerical %r' % (w0, c, g0, n0), detail)
             continue
         if hc:
             n1 = (float(o[4][1]) - float(o[5][1])) / (2 * hc)
             scale1 = tot * 1e-7 + 1e-16 * abs(ll) / hc
             if abs(n1 - g1) > 1e-4 * abs(n1) + 50 * scale1:
-                res.violate('C20:gradient:c', 'd/dc at (w0=%r, c=%r): analytic %r, numerical %r' % (w0, c, g1, n1),
-                            {'counts': counts, 'w0': w0, 'c': c})
+                res.violate('C20:gradient:c', 'd/dc at (w0=%r, c=%r): analytic %r, numerical %r' % (w0, c, g1, n1), detail)
                 continue
         res.count('gradient_points')
         res.nontrivial.append(fingerprint(['grad', desc['seed'], i]))
     if res.sample is None:
-        res.sample = {'kind': 'gradient identity', 'histogram_bins': len(counts), 'points': len(pts), 'first_point': pts[0]}
+        res.sample = {'kind': 'gradient identity', 'histogram_bins': [len(h) for h in hists], 'points': len(jobs), 'first_point': jobs[0][1:3]}
 
 
 def run_cutoff(desc, ctx, res):
